@@ -5,6 +5,9 @@
 // circuit-v2 relay service: default limits, a 15 s limit, or unlimited). A and B carry the real
 // circuit client transport (wired as p2p/protocol/circuitv2/relay/relay_test.go does) behind a
 // wrapper that records the addresses handed to Dial and delegates. world_test.go holds the code.
+// A's swarm resolves names through a scripted MultiaddrDNSResolver; in some runs A knows B (also or only)
+// by a /dnsaddr name that expands to B's circuit address, by a /dnsaddr name that expands to B's direct
+// address (control), by the circuit address with the relay's /dns4 name, or by B's /dns4 name.
 //
 // Layer A: the initial connections A-B are drawn (limited only, none, direct only,
 // both); 1-4 caller tasks on A call Swarm.NewStream / Swarm.DialPeer / Host.NewStream /
@@ -70,6 +73,7 @@
 //	bestAcceptableConnToPeer ignores force-direct                     force-direct-returned-relayed (+ /final, direct-dial-success-without-direct-conn)
 //	connectednessUnlocked: Connected for limited only                 connectedness/reported-Connected-truth-Limited (+ connectedness-event/...)
 //	addrsForDial keeps relay addresses under force-direct             relay-address-dialled-under-force-direct
+//	addrsForDial filters relay addresses BEFORE resolving (a /dnsaddr expanding to a circuit address slips through)  relay-address-dialled-under-force-direct (+ force-direct-returned-relayed, force-direct-connect-without-direct-conn, holepunch-success-without-direct-conn; run through ./check with VERIF_REPO)
 //	Conn.NewStream re-check dropped                                   stream-on-limited-conn-without-permission/Conn.NewStream
 //	Swarm.NewStream: Limited check dropped                            gave-up-without-waiting
 //	addConn does not close the waiters' channels                      waiter-not-released
